@@ -2,7 +2,7 @@
    that is requested at most once and whose handler does not misuse SendSystemError, the
    frames enqueued for the id form a prefix of an accepted word of Spec/WireOk.v. *)
 From Coq Require Import ZArith List Bool Lia.
-From Verif Require Import Base.Wire Spec.WireOk Proofs.WireOkP Model.RespWire.
+From Verif Require Import Base.Wire Spec.WireOk Proofs.WireOkP Model.ArgHelper Model.RespWire.
 Import ListNotations.
 Local Open Scope Z_scope.
 
@@ -183,7 +183,7 @@ Proof. intros H; inversion H; reflexivity. Qed.
 
 Lemma frame_hstep lid st c l st' : hstep st lid c l = Some st' -> frame_eq lid st st'.
 Proof.
-  unfold hstep. intros H.
+  unfold hstep, hclose. intros H.
   destruct l; destruct (h_pc c); try discriminate;
     repeat match type of H with
            | Some _ = Some _ => apply Some_inj in H; subst st'
@@ -192,10 +192,9 @@ Proof.
            | (if ?b then _ else _) = Some _ => destruct b eqn:?
            | (match ?x with _ => _ end) = Some _ => destruct x eqn:?
            end; try discriminate; frame_tac.
-  (* HSysErr: (misused) ; commit ; send ; commit *)
+  (* HSysErr: (misused) ; send ; commit *)
   eapply frame_trans; [|apply frame_commit].
   eapply frame_trans; [|eapply frame_send_syserr; eassumption].
-  eapply frame_trans; [|apply frame_commit].
   destruct (g_dones c); [apply frame_misused | apply frame_refl].
 Qed.
 
@@ -352,6 +351,30 @@ Qed.
 
 Ltac leaf Hq q := eapply hpost_commit; [exact Hq | destruct q; Rsolve].
 
+(* fragmenting_writer.go Close, shared by HClose and the successful path of HHelperWrite *)
+Lemma hclose_post st id c fullfrag st' q :
+  wire_run W0 (proj id (sent st)) = Some q -> R q c -> h_pc c = PIdle ->
+  hclose st id c fullfrag = Some st' -> hpost id st'.
+Proof.
+  intros Hq HR Hpc H. unfold hclose in H.
+    destruct (f_err c) eqn:Fe.
+    { apply Some_inj in H; subst st'. leaf Hq q. }
+    destruct (f_state c) eqn:Fs.
+    + apply Some_inj in H; subst st'. leaf Hq q.
+    + destruct fullfrag; cbn [negb] in H.
+      * destruct (f_cur c) eqn:Hcur; cbn [negb f_cur upd_f] in H; [|discriminate].
+        apply Some_inj in H; subst st'. eapply flush1_post; [exact Hq | destruct q; Rsolve | exact Hpc | reflexivity].
+      * apply Some_inj in H; subst st'. leaf Hq q.
+    + destruct (f_cur c) eqn:Hcur; cbn [negb] in H; [|discriminate].
+      apply Some_inj in H; subst st'. eapply flush1_post; [exact Hq | destruct q; Rsolve | exact Hpc | reflexivity].
+    + apply Some_inj in H; subst st'. leaf Hq q.
+    + apply Some_inj in H; subst st'. leaf Hq q.
+Qed.
+
+(* ArgWriteHelper.write closes its writer exactly when f() succeeded (computed from Model/ArgHelper.v) *)
+Lemma helper_closes_eq ok : helper_closes ok = ok.
+Proof. destruct ok; reflexivity. Qed.
+
 Lemma hstep_same st id c l st' q :
   get id (calls st) = Some c ->
   wire_run W0 (proj id (sent st)) = Some q -> R q c ->
@@ -395,44 +418,31 @@ Proof.
     + destruct (failed_call c) as [c1 chk] eqn:Fc. apply Some_inj in H; subst st'. leaf Hq q.
     + apply Some_inj in H; subst st'. leaf Hq q.
   - (* HClose *)
-    destruct (f_err c) eqn:Fe.
-    { apply Some_inj in H; subst st'. leaf Hq q. }
-    destruct (f_state c) eqn:Fs.
-    + apply Some_inj in H; subst st'. leaf Hq q.
-    + destruct fullfrag; cbn [negb] in H.
-      * destruct (f_cur c) eqn:Hcur; cbn [negb f_cur upd_f] in H; [|discriminate].
-        apply Some_inj in H; subst st'. eapply flush1_post; [exact Hq | destruct q; Rsolve | exact Hpc | reflexivity].
-      * apply Some_inj in H; subst st'. leaf Hq q.
-    + destruct (f_cur c) eqn:Hcur; cbn [negb] in H; [|discriminate].
-      apply Some_inj in H; subst st'. eapply flush1_post; [exact Hq | destruct q; Rsolve | exact Hpc | reflexivity].
-    + apply Some_inj in H; subst st'. leaf Hq q.
-    + apply Some_inj in H; subst st'. leaf Hq q.
+    eapply hclose_post; eassumption.
   - (* HDone *)
     destruct (done_sending c) as [c1 chk] eqn:Ds. apply Some_inj in H; subst st'.
     destruct (f_err c1); leaf Hq q.
   - (* HSysErr *)
     destruct (w_err c) eqn:We.
     { apply Some_inj in H; subst st'. leaf Hq q. }
+    destruct (conn_send_syserr (if g_dones c then add_misused st id else st) id full) as [st1 ok] eqn:Cs.
     destruct (done_sending (upd_w c false WComplete (rd_err c))) as [c1 chk] eqn:Ds.
-    destruct (conn_send_syserr (commit (if g_dones c then add_misused st id else st) id c1 chk) id full)
-      as [st2 ok] eqn:Cs.
     apply Some_inj in H; subst st'. rewrite mis_commit in Hmis.
     assert (Hd : g_dones c = false).
     { destruct (g_dones c) eqn:Hd; [|reflexivity]. exfalso. apply Hmis.
       unfold conn_send_syserr in Cs.
       destruct (cst _); [destruct full|destruct full|destruct full|]; inversion Cs; subst;
-        cbn [misused enqueue]; rewrite mis_commit; cbn; apply in_or_app; right; left; reflexivity. }
+        cbn [misused enqueue add_misused]; apply in_or_app; right; left; reflexivity. }
     rewrite Hd in Cs. unfold conn_send_syserr in Cs.
-    assert (Cs' : (st2 = commit st id c1 chk /\ ok = false) \/
-                  (st2 = enqueue (commit st id c1 chk) id Err /\ ok = true)).
+    assert (Cs' : (st1 = st /\ ok = false) \/ (st1 = enqueue st id Err /\ ok = true)).
     { destruct (cst _); [destruct full|destruct full|destruct full|]; inversion Cs; subst; auto. }
     clear Cs. destruct Cs' as [[-> ->] | [-> ->]].
-    + eapply hpost_commit; [rewrite sent_commit; exact Hq | destruct q; Rsolve].
+    + eapply hpost_commit; [exact Hq | destruct q; Rsolve].
     + destruct q.
       * eapply hpost_commit;
-          [cbn [sent enqueue]; rewrite sent_commit, proj_snoc_same, wire_run_snoc, Hq; reflexivity | Rsolve].
+          [cbn [sent enqueue]; rewrite proj_snoc_same, wire_run_snoc, Hq; reflexivity | Rsolve].
       * eapply hpost_commit;
-          [cbn [sent enqueue]; rewrite sent_commit, proj_snoc_same, wire_run_snoc, Hq; reflexivity | Rsolve].
+          [cbn [sent enqueue]; rewrite proj_snoc_same, wire_run_snoc, Hq; reflexivity | Rsolve].
       * exfalso. Rsolve.
   - (* HSetAppErr *)
     destruct (w_state c).
@@ -443,6 +453,10 @@ Proof.
   - (* HBlackhole *)
     apply Some_inj in H; subst st'.
     eapply hpost_commit; [exact Hq | eapply R_wsame; [apply wsame_cancel | exact HR]].
+  - (* HHelperWrite *)
+    rewrite helper_closes_eq in H. destruct ok.
+    + eapply hclose_post; eassumption.
+    + apply Some_inj in H; subst st'. leaf Hq q.
 Qed.
 
 (* ---- steps that change only exchange/connection state --------------------------------------- *)
@@ -947,6 +961,22 @@ Proof.
          end.
 Qed.
 
+Lemma hclose_dones st lid c fullfrag st' :
+  hclose st lid c fullfrag = Some st' -> hget lid st' (g_dones c).
+Proof.
+  unfold hclose. intros H.
+  repeat match type of H with
+         | Some _ = Some _ => apply Some_inj in H; subst st'
+         | None = Some _ => discriminate
+         | (if ?b then _ else _) = Some _ => destruct b eqn:?
+         | (match ?x with _ => _ end) = Some _ => destruct x eqn:?
+         end; try discriminate;
+    try (cbn [g_dones set_ferr upd_f upd_pc upd_w upd_epc upd_mex ret cancel_call] in * );
+    try solve [hg].
+  - apply (hget_flush1 st lid (upd_f c FWaiting false (f_cur c) (f_first c)) false).
+  - apply (hget_flush1 st lid (upd_f c FComplete false (f_cur c) (f_first c)) true).
+Qed.
+
 Lemma hstep_dones st lid c l st' :
   get lid (calls st) = Some c ->
   hstep st lid c l = Some st' ->
@@ -967,13 +997,12 @@ Proof.
            | (if ?b then _ else _) = Some _ => destruct b eqn:?
            | (match ?x with _ => _ end) = Some _ => destruct x eqn:?
            end; try discriminate;
+    try (eapply hclose_dones; eassumption);
     try (cbn [g_dones set_ferr upd_f upd_pc upd_w upd_epc upd_mex ret cancel_call] in *);
     try solve [hg]; try apply hget_flush1; try apply hget_arg_writer.
   - destruct (rd_err c); hg.
   - exists c. auto.
   - destruct final; hg.
-  - apply (hget_flush1 st lid (upd_f c FWaiting false (f_cur c) (f_first c)) false).
-  - apply (hget_flush1 st lid (upd_f c FComplete false (f_cur c) (f_first c)) true).
   - apply hget_commit. reflexivity.
 Qed.
 
@@ -994,6 +1023,19 @@ Proof.
          end.
 Qed.
 
+Lemma hclose_mis st lid c fullfrag st' :
+  hclose st lid c fullfrag = Some st' -> misused st' = misused st.
+Proof.
+  unfold hclose. intros H.
+  repeat match type of H with
+         | Some _ = Some _ => apply Some_inj in H; subst st'
+         | None = Some _ => discriminate
+         | (if ?b then _ else _) = Some _ => destruct b eqn:?
+         | (match ?x with _ => _ end) = Some _ => destruct x eqn:?
+         end; try discriminate;
+    try reflexivity; try apply mis_commit; try apply mis_flush1.
+Qed.
+
 Lemma hstep_mis st lid c l st' :
   hstep st lid c l = Some st' ->
   match l with
@@ -1010,15 +1052,16 @@ Proof.
            | (if ?b then _ else _) = Some _ => destruct b eqn:?
            | (match ?x with _ => _ end) = Some _ => destruct x eqn:?
            end; try discriminate;
+    try (eapply hclose_mis; eassumption);
     try reflexivity; try apply mis_commit; try apply mis_flush1; try apply mis_arg_writer;
     try (cbn [misused enqueue]; apply mis_commit).
   - left. apply mis_commit.
   - (* past the error check *)
     rewrite mis_commit.
     assert (M : misused s = misused (if g_dones c then add_misused st lid else st)).
-    { unfold conn_send_syserr in Heqp0.
-      destruct (cst _); [destruct full|destruct full|destruct full|]; inversion Heqp0; subst;
-        cbn [misused enqueue]; apply mis_commit. }
+    { unfold conn_send_syserr in Heqp.
+      destruct (cst _); [destruct full|destruct full|destruct full|]; inversion Heqp; subst;
+        cbn [misused enqueue]; reflexivity. }
     rewrite M. destruct (g_dones c); [right; split; reflexivity | left; reflexivity].
 Qed.
 
@@ -1026,7 +1069,8 @@ Qed.
 Definition handler_label (l : label) : bool :=
   match l with
   | HStart _ _ | HResp _ | HReadFail _ _ | HArgWriter _ _ | HFlush _ _ | HFlushSel _ _
-  | HNewFrag _ | HClose _ _ | HDone _ | HSysErr _ _ | HSetAppErr _ | HBlackhole _ => true
+  | HNewFrag _ | HClose _ _ | HDone _ | HSysErr _ _ | HSetAppErr _ | HBlackhole _
+  | HHelperWrite _ _ _ => true
   | _ => false
   end.
 
